@@ -7,7 +7,8 @@ cause; the automaton reads, per operation, the operation marker and then its out
     `link_established, connected, fully_connected` in that order;
   * a link failure (`linkFailed`, the driver's report) before the first packet is followed by exactly
     `connection_failed`; after the first packet by exactly `disconnected` and then `connection_lost`;
-  * every `close_link` is followed by exactly one `disconnected` of its own;
+  * every `close_link` (a user operation, or `closeCalled`: called from inside a callback while a packet is being
+    dispatched) is followed by exactly one `disconnected` of its own;
   * no `disconnected` / `connection_lost` / `connection_failed` without one of these causes, and nothing of an
     attempt after its termination (`Ph.idle`);
   * a blocking `SyncCrazyflie.open_link` returns only when `connected` was signalled and raises only when the
@@ -59,7 +60,10 @@ def W.free (w : W) : Out → Bool
   | _ => false
 
 def wfOut (w : W) (o : Out) : Option W :=
-  if o = .linkFailed then
+  if o = .closeCalled then
+    -- `close_link` called from a callback: it owes its one `disconnected`
+    some { w with expect := .cb .disconnected :: w.expect }
+  else if o = .linkFailed then
     -- the driver reports an error: what is owed depends on whether a packet has arrived in this attempt
     match w.ph with
     | .idle => none
